@@ -1,4 +1,4 @@
-from planlib import geo
+from planlib import geo, desc_fuzz
 
 OPS = ["input", "vec_znx_copy", "vec_znx_negate", "vec_znx_rotate", "vec_znx_automorphism", "vec_znx_add", "vec_znx_sub", "normalize_base2k",
        "vec_znx_dft", "vec_znx_idft", "vec_znx_idft_tmp_a", "svp_prepare", "svp_apply_dft", "vmp_prepare_contiguous", "vmp_apply_dft",
@@ -34,9 +34,10 @@ PLAN = dict(
          "Non-trivial: some slot's lineage contains >=3 of {dft, product, idft, big op, normalize}.",
     assumptions=["FFT64 exactness budget 2^40 on the l1-product bound (conservative: keeps the documented C01 error E far below 1/2)"],
     quick=_jobs("quick"), thorough=_jobs("thorough"),
-    fuzz=dict(target="fuzz/api_program.cpp", corpus="fuzz/corpus/api_program", extra_link=["-lgmp"],
-              quick=dict(mode="replay"),
-              thorough=dict(mode="campaign", workers=16, runs=150000)),
+    fuzz=[dict(target="fuzz/api_program.cpp", corpus="fuzz/corpus/api_program", extra_link=["-lgmp"],
+               quick=dict(mode="replay"),
+               thorough=dict(mode="campaign", workers=16, runs=150000)),
+          desc_fuzz("C16", fix=dict(k=(0, 8)), runs=40000)],
     required_classes=dict(all=["op:" + o for o in OPS] + ["chain:dft->product->idft->bigop->normalize", "module:NTT120", "cfg:generic", "q120chain"]
                           + ["k:%d" % k for k in range(1, 17)] + ["scratch:one-shared-buffer", "scratch:fresh-per-call"]
                           + ["loop:matrices-on-same-input,shared-scratch,k:%d" % k for k in range(1, 10)] + ["loop:matrices-on-same-input,shared-scratch,N>=1024"]),
